@@ -1,7 +1,7 @@
 import SspModel.Real
 import SspModel.Model.IFMR
 import SspModel.Lemmas.Table
-import SspModel.Lemmas.Bridge
+import SspModel.Generated.Formulas
 import Mathlib.Analysis.SpecialFunctions.Pow.Real
 /-!
 # C09 — initial-final mass relations are closed, ordered, physical at every metallicity
